@@ -66,6 +66,8 @@ def run(ck: Check, prog: Program) -> None:
 
 
 MUTANTS = [
+    dict(name='falsy-tracers-dropped-at-construction', file='pjrpc/client/client.py',
+         find='        self._tracers = tracers\n', replace='        self._tracers = tuple(t for t in tracers if t)\n', expect='TRACE-ORDER'),
     dict(name='batch-related-after-the-traced-send', file='pjrpc/client/client.py', nth=0,
          find='                validator=self._relate,\n', replace='                validator=lambda a, b: None,\n', expect='DECOR-ORDER'),
     dict(name='completion-report-inside-the-guarded-region', file='pjrpc/client/client.py', nth=0,
